@@ -9,7 +9,17 @@ COMMON_NOTE = ("Trusted: Lean 4.33 kernel (+ propext, Classical.choice, Quot.sou
                "harness/gen_tables.py, the Python correspondence harness and the Lean driver's JSON glue. "
                "Hand-written model is tied to /repo by exact differential comparison on generated inputs on every run. ")
 
+TV_NOTE = ("Trusted: Lean 4.33 kernel and the theorem ESV.Beh.check_sound/validate_sound (axioms audited every run); the Lean compiler executing "
+           "the validator in the driver; this project's reading of docs/language_spec.rst (lean/ESV/Src/Sem.lean + harness/gen/surface.py lowering table); "
+           "opcode class tables pinned in lean/ESV/Beh/Spec.lean and proved equal to the tables regenerated from /repo (ESV.TableTie); "
+           "printer/astdump glue (cross-checked per program). ")
+
 CHECKS = {
+    "C01": dict(
+        level="translation_validation", design="4/C01",
+        technique="translation validation: Lean 4 kernel-checked equivalence checker (check_sound) fed with the real compiler's output vs the Lean source semantics, on generated programs",
+        text="Every generated program is compiled by the real compiler and each routine is validated against the Lean small-step source semantics on the Lean SSB machine by a checker whose soundness (equal operation/test traces for every outcome of every test, halting preserved) is a kernel-checked theorem over all transition systems and relations. A verdict is per program; no forall-programs theorem about the compiler is claimed.",
+        note=TV_NOTE + "The ANTLR parser and the compiler are not modelled."),
     "C14": dict(
         level="proof", design="4/C14",
         technique="Lean 4 theorems about a hand-written model of source_map.py (serialize/deserialize/rewrite_offsets) + exact model-vs-implementation correspondence + property oracle on real objects",
